@@ -63,6 +63,11 @@ type link struct {
 	// sendLag: the send callback returns only this long after the packet is
 	// on its way (a transport whose write call completes late).
 	sendLag time.Duration
+	// serial: the send callback serialises its callers with a mutex that it
+	// holds for the whole call (as the mailbox connections do): a second
+	// send waits for the first one whatever its own context says.
+	serial   bool
+	serialMu sync.Mutex
 
 	nSent, nDrop, nDup, nDeliv, nDelay int
 }
@@ -108,6 +113,13 @@ func (l *link) inject(b []byte, lat time.Duration) {
 
 func (l *link) send(ctx context.Context, b []byte) error {
 	cp := append([]byte(nil), b...)
+	l.mu.Lock()
+	serial := l.serial
+	l.mu.Unlock()
+	if serial {
+		l.serialMu.Lock()
+		defer l.serialMu.Unlock()
+	}
 	now := l.rc.Now()
 	l.mu.Lock()
 	stall := l.stallUntil
